@@ -100,6 +100,13 @@ def case_strategy():
         neg = pat.map(lambda p: "!" + p)
         other = st.sampled_from(["# a comment", "", "*", "!*/", "*.c", "!*.c", "**", "/*", "**/", "/**/"])
         patterns = draw(st.lists(st.one_of(pat, pat, pat, neg, other), min_size=0, max_size=5))
+        if draw(st.integers(0, 5)) == 0:
+            # the same pattern before and after a negation: the later copy is not redundant (last match decides)
+            f = draw(st.sampled_from(files))
+            base = f.split("/")[-1]
+            ext = os.path.splitext(base)[1]
+            broad = draw(st.sampled_from((["*" + esc(ext)] if ext else []) + [esc(base[:1]) + "*", "*"]))
+            patterns = patterns[:2] + [broad, "!" + esc(base), broad]
         # a FIFO named like a source file (not a regular file, so not a member)
         fifo = draw(st.sampled_from([None, None, None, "pipe.c", (dirs[0] + "/pipe.h") if dirs else "pipe.h"]))
         return {"files": files, "links": links, "patterns": patterns, "fifo": fifo}
